@@ -130,6 +130,8 @@ def replay(scs, workdir, flavor='asan', shards=16, harness='vdrive', batch=200, 
     inc = os.path.join(workdir, 'inc.bloc')
     open(inc, 'w').write('INCLUDED = 1;\n')
     e['VDRIVE_INC'] = inc
+    e['VDRIVE_WORK'] = workdir
+    e['VDRIVE_BLOC'] = os.path.join(b, 'apps', 'bloc')
     if env:
         e.update(env)
     for k in range(shards):
